@@ -193,6 +193,20 @@ class InlineTranslator:
                 != replace_cond.atom.symbol.arguments[hv_pos]  # pylint: disable=undefined-loop-variable
             ):
                 return atom
+            # the result may only be the weight: it has no value any more once the aggregate is inlined
+            weight = replace_elem.terms[0]
+            if weight.ast_type != ASTType.Variable or collect_ast(replace_elem, "Variable").count(weight) != 2:
+                return atom
+            # all other arguments must be part of the tuple, otherwise values of different instances of the
+            # inlined rule are no longer told apart (set semantics of the tuple)
+            tuple_vars = set()
+            for term in replace_elem.terms[1:]:
+                tuple_vars.update(collect_ast(term, "Variable"))
+            for pos, arg in enumerate(replace_cond.atom.symbol.arguments):
+                if pos == hv_pos:  # pylint: disable=undefined-loop-variable
+                    continue
+                if arg.ast_type == ASTType.Variable and (arg.name == "_" or arg not in tuple_vars):
+                    return atom
             # replace headrule body aggregate with inlined version of the conditions
             new_elements = self.compute_new_body_elements(rule, replace_cond, replace_elem, agg, atom, unique_vars)
             return atom.update(function=result_function, elements=rest_elems + new_elements)
